@@ -1,3 +1,5 @@
+//go:build verifshadow
+
 // Package osmon is the client side of the package-os interposer that
 // tools/mkshadow installs in the shadow GOROOT. It only compiles on that
 // GOROOT (os.VerifSetHooks). It gives tracing, single- and multi-fault
@@ -29,6 +31,11 @@ type Event struct {
 	Err   string `json:"err,omitempty"`
 	Done  bool   `json:"done"` // the After half was seen (false: the call panicked / was killed / injected error)
 	Inj   string `json:"inj,omitempty"`
+	// Depth > 0: the call was made from inside another hooked call (e.g. the lstat inside os.Rename);
+	// meaningful for single-goroutine workloads only.
+	Depth int `json:"depth,omitempty"`
+	// Pos is the file offset at which a write/read starts (-1 if unknown / not seekable).
+	Pos int64 `json:"pos,omitempty"`
 }
 
 // FaultKind selects what happens at Fault.At.
@@ -73,6 +80,7 @@ type Mon struct {
 
 	mu     sync.Mutex
 	seq    int64
+	open   int
 	events []*Event
 	fired  []string
 }
@@ -169,9 +177,20 @@ func (m *Mon) before(ev *os.VerifEvent) error {
 	if ev.Path2 != "" {
 		e.Path2 = Abs(ev.Path2)
 	}
+	e.Pos = -1
 	if ev.File != nil {
 		e.FID = fid(ev.File)
+		switch ev.Op {
+		case "write":
+			if p, err := ev.File.Seek(0, 1); err == nil {
+				e.Pos = p
+			}
+		case "writeat":
+			e.Pos = ev.Off
+		}
 	}
+	e.Depth = m.open
+	m.open++
 	ev.User = evUser{e}
 	if m.Record {
 		m.events = append(m.events, e)
@@ -239,6 +258,7 @@ func (m *Mon) after(ev *os.VerifEvent) {
 		return
 	}
 	m.mu.Lock()
+	m.open--
 	u.e.Done = true
 	u.e.N = ev.N
 	if ev.Err != nil {
@@ -286,4 +306,12 @@ func Mutating(e *Event) bool {
 		return e.Flag&(os.O_CREATE|os.O_TRUNC) != 0
 	}
 	return false
+}
+
+// Unhooked runs f with the interposer removed (for use inside a Before callback, which holds the
+// monitor lock: f may then use package os freely). Only sound for single-goroutine workloads.
+func (m *Mon) Unhooked(f func()) {
+	os.VerifSetHooks(nil)
+	defer os.VerifSetHooks(&os.VerifHooks{Before: m.before, After: m.after})
+	f()
 }
